@@ -7,7 +7,7 @@
     record freed once, stack empty) is the executable predicate family WB.Abi.Check.check_call_import /
     check_call_export evaluated by the check on the REAL streams. *)
 From Coq Require Import List NArith Arith.
-From WB Require Import Wit.Ty Canon.Spec Abi.Sig Abi.Instr Abi.CastSem Abi.Gen Abi.SigProofs Abi.SigFuncProofs Abi.GenDiscipline Abi.GenCallImport Abi.GenCallExport.
+From WB Require Import Wit.Ty Canon.Spec Abi.Sig Abi.Instr Abi.CastSem Abi.Gen Abi.SigProofs Abi.SigFuncProofs Abi.GenDiscipline Abi.GenCallImport Abi.GenCallExport Abi.GenCallExportAsync.
 Import ListNotations.
 
 Theorem C02_core_signature_is_canonical : forall pw v fn,
@@ -48,6 +48,18 @@ Theorem C02_sync_export_call_never_panics : forall canon fn sig,
   ok_with (call canon fn GuestExport LiftArgsLowerResults false) gst0 (fun _ s' => stack s' = [] /\ realloc s' = None).
 Proof. exact call_export_sync_ok. Qed.
 
+(** The glue of an async (callback-ABI) export (GuestExportAsync, LiftArgsLowerResults, async): for EVERY non-method
+    signature with well-formed parameter types no panic site is reached; the result is handed to task.return flat
+    exactly when its flattening fits 16 values (AsyncTaskReturn then consumes exactly that many operands) and
+    through a return area otherwise (one pointer operand); realloc unset and stack empty at the end. *)
+Theorem C02_async_export_call_never_panics : forall canon fn sig,
+  f_method fn = false ->
+  forallb valid_ty (f_params fn) = true ->
+  wasm_signature GuestExportAsync fn = SigOk sig ->
+  ok_with (call canon fn GuestExportAsync LiftArgsLowerResults true) gst0 (fun _ s' => stack s' = [] /\ realloc s' = None).
+Proof. exact call_export_async_ok. Qed.
+
+Print Assumptions C02_async_export_call_never_panics.
 Print Assumptions C02_sync_export_call_never_panics.
 Print Assumptions C02_sync_import_call_never_panics.
 Print Assumptions C02_core_signature_is_canonical.
